@@ -371,18 +371,20 @@ class Kernel(object):
         import rpyc.core.protocol as protocol
         import rpyc.utils.helpers as helpers
         import rpyc.core.async_ as async_
+        import rpyc.lib.colls as colls
         if CURRENT is not None:
             raise KernelStuck("nested kernels")
         simtime = SimTimeModule(self)
         saved = [(protocol, "Lock", protocol.Lock), (protocol, "Condition", protocol.Condition),
                  (protocol, "spawn", protocol.spawn), (protocol, "time", protocol.time),
                  (rpyc.lib, "time", rpyc.lib.time), (helpers, "time", helpers.time),
-                 (helpers, "spawn", helpers.spawn), (async_, "time", async_.time)]
+                 (helpers, "spawn", helpers.spawn), (async_, "time", async_.time), (colls, "Lock", colls.Lock)]
         gc_was = gc.isenabled()
         gc.disable()
         CURRENT = self
         protocol.Lock = SimLock
         protocol.Condition = SimCondition
+        colls.Lock = SimLock
         protocol.spawn = self._rpyc_spawn
         helpers.spawn = self._rpyc_spawn
         protocol.time = simtime
